@@ -514,7 +514,42 @@ func errFromCalls(v ssa.Value, calls []*ssa.Call, seen map[ssa.Value]bool) bool 
 	return false
 }
 
+// retryClosures lists the closures handed to Channel.RunWithRetry in the analysed packages.
+func retryClosures(p *core.Prog) []*ssa.Function {
+	var out []*ssa.Function
+	for _, cs := range p.CallsTo("Channel.RunWithRetry") {
+		if !p.InAnalysed(cs.Fn) {
+			continue
+		}
+		args := core.CallArgs(cs.Call)
+		fnArg := args[len(args)-1]
+		if ct, isCT := fnArg.(*ssa.ChangeType); isCT {
+			fnArg = ct.X
+		}
+		if mc, ok := fnArg.(*ssa.MakeClosure); ok {
+			out = append(out, mc.Fn.(*ssa.Function))
+		}
+	}
+	return out
+}
+
 func c17State(p *core.Prog, r *core.Report) {
+	// every attempt of the library's own retrying clients starts its call with
+	// the attempt's RequestState in the call options (that is how the peers
+	// already tried reach peer selection)
+	for _, cl := range retryClosures(p) {
+		ok := false
+		if len(cl.Params) == 2 {
+			core.EachInstr(cl, func(i ssa.Instruction) {
+				if st, isSt := i.(*ssa.Store); isSt {
+					if fl := core.AddrField(st.Addr); fl != nil && fl.Name() == "RequestState" && st.Val == ssa.Value(cl.Params[1]) {
+						ok = true
+					}
+				}
+			})
+		}
+		r.Check(ok, "C17-R4", fname(cl), "the attempt's RequestState is passed in the call options", p.Pos(cl.Pos()), "CallOptions.RequestState = rs inside the retry closure", "the call of an attempt is started without the attempt's RequestState: tried peers are neither recorded nor avoided")
+	}
 	if f := mustFunc(p, r, "", "Peer", "BeginCall"); f != nil {
 		adds := core.CallsIn(f, "RequestState.AddSelectedPeer")
 		vals := core.CallsIn(f, "validateCall")
